@@ -78,7 +78,13 @@ def build(ops, pin, dflt):
             req.append(f"sweep {op[1].tok()} {op[2].tok()} {op[3].tok()} {op[4].tok()}")
         else:
             t = "" if op[2] is None else f", tempo={sb.a(op[2])}"
-            sb.line(f"bz.melody({op[1]!r}{t})")
+            spelled = op[1]                      # tune names are case-insensitive in the transpiler: spell some of them Capitalised / UPPER
+            h = sum(map(ord, op[1])) + len(req)
+            if h % 3 == 1:
+                spelled = op[1].capitalize()
+            elif h % 3 == 2:
+                spelled = op[1].upper()
+            sb.line(f"bz.melody({spelled!r}{t})")
             req.append(f"mel {op[1]} {'-' if op[2] is None else op[2].tok()}")
         sb.line("mon.write(bz.get_state())")
         sb.line("mon.write(bz.get_frequency())")
